@@ -154,7 +154,12 @@ InitScenario ==
           /\ (ld => s # "none" /\ FileOf(SlotPos(s)) = 2 /\ s2 = "none")
           /\ sc = [kind |-> k, slot |-> s, slot2 |-> s2, list |-> l, ld |-> ld]
 
-Init == /\ InitScenario
+InitScenario2 ==   \* (quick) a file-level directive in the first file together with a directive in the second file
+  /\ Mode = "quick"
+  /\ \E k \in Kinds, s \in {"D4", "S41", "T41", "S61", "TD5"}, l \in {<<"ALL">>, <<"exact">>} :
+       sc = [kind |-> k, slot |-> s, slot2 |-> "F0", list |-> l, ld |-> FALSE]
+
+Init == /\ (InitScenario \/ InitScenario2)
         /\ ph = "classify" /\ cls = "?" /\ rng = <<0, 0>> /\ cls2 = "?" /\ rng2 = <<0, 0>> /\ out = {}
 
 \* the top-level declaration whose span contains p, or 0
